@@ -584,6 +584,10 @@ class FunctionUnit(Unit):
         kind = "return" if exc is None else f"raise:{exc.pycls.__name__ if exc.pycls else 'sym'}"
         ip.ctx.cover(f"{self.qualname}/cover:exit[{kind}]")
         self.on_exit(ip, pre, exc, ret)
+        self.after_exit(ip, pre, exc, ret)
+
+    def after_exit(self, ip, pre, exc, ret):
+        """obligations common to a family of function units (default: none)"""
 
 
 class LemmaUnit(Unit):
